@@ -227,6 +227,15 @@ theorem decorator_piece_labelled (i : Nat) (l v : Frag) (hl : Frag.Simple l) (hv
 
 example : decoKV 3 ['k', '=', 'a', '=', '=', 'b'] = .ok (['k'], ['a', '=', '=', 'b']) := by decide
 
+/-- non-vacuity with further top-level `=` in the value: `cond=x==y`, `a=b=c` (the label ends at the first `=`) -/
+example :
+    let l : Frag := .atom 'c' (.atom 'o' (.atom 'n' (.atom 'd' .nil)))
+    let v : Frag := .atom 'x' (.atom '=' (.atom '=' (.atom 'y' .nil)))
+    Frag.noTop '=' l = true ∧ l.lstrip = l ∧ v ≠ .nil ∧
+      decoKV 1 (l ++ Frag.atom '=' v : Frag).render = .ok (['c', 'o', 'n', 'd'], ['x', '=', '=', 'y']) ∧
+      decoKV 0 ['a', '=', 'b', '=', 'c'] = .ok (['a'], ['b', '=', 'c']) := by
+  decide
+
 /-- "A positional argument (no top-level `=`) is stored verbatim under its position" — the arguments law for a single
     positional argument (the former counterexample `f(g(k=1))` is an instance). -/
 def decorator_positional_statement : Prop :=
